@@ -31,7 +31,7 @@ def run(prop, tier):
         if tier == "thorough":
             # anti-vacuity: with the leaky Fail action TLC must refute the invariants
             leaky = C.run_tlc("MC_Session", "MC_Session_leaky.cfg", "xpssleaky", workers=4, timeout=600)
-            if leaky.ok or not any("is violated" in l for l in leaky.raw_tail):
+            if leaky.ok or leaky.returncode != 12:      # TLC exit status 12: a safety property is violated
                 raise C.ToolError("MC_Session with Leaky = TRUE did not violate the invariants (vacuous model?)")
             out.extra["leaky_model_refuted"] = True
         trace = os.path.join(wd, "ss.trace")
